@@ -15,6 +15,7 @@ L3  every application of the shared e2e stage with class `planted:<rule>` (tools
       plus the in-process harness `harness/crates/rules` (real `matchit` insertion conflicts vs the model's
         `sameShape`, and DFS cycle search on random graphs vs a reference).
 """
+import collections
 import json
 import os
 import random
@@ -35,6 +36,8 @@ PATTERNS = [
     ("not_send", r"doesn't implement the `core::marker::Send` trait"),
     ("not_sync", r"doesn't implement the `core::marker::Sync` trait"),
     ("singleton_by_value", r"is a singleton and can't be moved out of `ApplicationState`"),
+    # the borrow checker of a request pipeline (C01/C02, not modelled here) can get there first
+    ("by_value_borrowck", r"components that take `[^`]+` as an input parameter, consuming it by value"),
     ("mut_singleton", r"You can't inject a mutable reference to a singleton"),
     ("mut_transient", r"You can't inject a mutable reference to a transient type"),
     ("mut_cloneable", r"has been marked `CloneIfNecessary`"),
@@ -113,6 +116,7 @@ IDENT = {
     "observer_fallible": r"`([^`]+)` violates this constraints! It depends on .*which is built with `([^`]+)`, a fallible constructor",
     "route_method_conflict": r"different request handlers for `([A-Z]+) ([^`]+)` requests",
     "route_path_conflict": r"This route path, `([^`]+)`, conflicts with the path of another route you already registered, `([^`]+)`",
+    "by_value_borrowck": r"components that take `([^`]+)` as an input parameter, consuming it by value",
     "path_param": r"extract path parameters using `PathParams<([^`>]+)>`\. .*?(?:that appear in|path parameters in) `([^`]+)`",
 }
 
@@ -203,6 +207,8 @@ def identify_model(adb, mout):
 
 def expected_kinds_ok(rule, impl_kinds):
     exp = gen_planted.RULES[rule]
+    if rule == "singleton_by_value" and "by_value_borrowck" in impl_kinds:
+        return True   # refused for taking the never-clone singleton by value, by the pipeline's borrow checker
     return all(k in impl_kinds for k in exp)
 
 
@@ -344,6 +350,7 @@ def run(R):
     R.assumptions += [
         "the abstract database is derived from the generator's spec (tools/gen_planted.py adb_of), not from pavexc's internal tables; generic constructors, prebuilt/config types and inputs of error handlers are outside the model",
         "diagnostics are compared as sets of (kind, subjects): which component / type / route each report is about (tools/checks/c08.py PATTERNS, IDENT), not by text or multiplicity",
+        "the borrow checker of the request pipelines is not part of this model (C01/C02): when it refuses the by-value use of a never-clone singleton before ApplicationState is examined, the report is accepted as the rule's diagnostic if it names the same type (counted under coverage.by_value_refused_by_pipeline_borrow_checker)",
         "toolchain shim: installed nightly (rustdoc JSON format 57) instead of pavexc's pinned nightly",
     ]
     lean_ok, lrep = pxvlib.lean_obligations(R, ["Pxv.Thm.C08"])
@@ -372,6 +379,7 @@ def run(R):
     hist, per_rule, depth_hist, nest_hist = {}, {}, {}, {}
     n_fail, disagreements, nontrivial = 0, [], set()
     ident_compared = 0
+    preempted = 0
     count_mismatch = []   # informational: pavexc reports a cycle once per call graph that contains it
     for k, (o, rule, adb) in enumerate(cases):
         impl_kinds = classify(o["out"])
@@ -425,14 +433,24 @@ def run(R):
         # correspondence: kinds printed by pavexc == kinds of the model's `check`
         if k < len(mouts) and mouts[k].get("r") == "ok":
             mk = {d[0] for d in mouts[k]["check"]}
-            if verdict in ("rejected", "accepted") and mk != ik:
+            truncated = len(o["out"]) >= 5990   # the stage keeps the last 6000 characters of pavexc's output
+            if verdict == "rejected" and "by_value_borrowck" in ik and mk == {"singleton_by_value"}:
+                # outside the model: the borrow checker of the pipeline refused the by-value use of the same
+                # never-clone singleton before ApplicationState was examined
+                bt = {x[1] for x in identify_impl(o["out"]) if x[0] == "by_value_borrowck"}
+                mt = {x[2] for x in identify_model(adb, mouts[k]) if x[0] == "singleton_by_value"}
+                if bt & mt:
+                    preempted += 1
+                    continue
+            if verdict in ("rejected", "accepted") and mk != ik and not (truncated and ik <= mk):
                 disagreements.append({"program": o["name"], "rule": rule, "model": sorted(mk), "pavexc": sorted(ik),
                                       "model_out": mouts[k], "abstract_db": adb, "failed_oracle": bool(why)})
             elif verdict == "rejected" and not rule.startswith("corpus:"):
                 # second level: the diagnostics are about the same components / types / routes
                 im, mm = identify_impl(o["out"]), identify_model(adb, mouts[k])
                 ident_compared += 1
-                import collections
+                if truncated and im <= mm:
+                    mm = im   # reports cut off by the stage: what is left must be among the model's
                 if collections.Counter(d[0] for d in mouts[k]["check"]) != collections.Counter(impl_kinds):
                     count_mismatch.append({"program": o["name"], "rule": rule, "model": dict(collections.Counter(d[0] for d in mouts[k]["check"])),
                                            "pavexc": dict(collections.Counter(impl_kinds))})
@@ -460,6 +478,7 @@ def run(R):
     R.coverage["planted_depth_histogram"] = depth_hist
     R.coverage["victim_nesting_level_histogram"] = nest_hist
     R.coverage["programs_compared_by_subject"] = ident_compared
+    R.coverage["by_value_refused_by_pipeline_borrow_checker"] = preempted
     R.coverage["report_multiplicity_differences"] = {"n": len(count_mismatch), "first": count_mismatch[:3]}
     R.coverage["samples"] = [{"program": o["name"], "rule": rule, "pavexc_kinds": sorted(set(classify(o["out"]))), "planted": (o["spec"] or {}).get("planted")}
                              for o, rule, _ in cases[:4]]
